@@ -925,6 +925,16 @@ def grid_accessors(chk):
                    (f"inherits from `{foreign[0]}`, which is defined elsewhere" if foreign else "defines its attributes dynamically") +
                    ": where its attributes come from was not followed", file=U.GRID, func=f"Grid.{meth.name}")
         reads = []
+    # possible reads of an undefined attribute that the lint could not establish: undecided, never silent
+    seen_u = set()
+    for meth, node, why_ in getattr(reads, "undecided", ()):
+        key = (meth.name, getattr(node, "attr", src(node)))
+        if key in seen_u:
+            continue
+        seen_u.add(key)
+        chk.ob("G1-attribute-defined", node, f"self.{key[1]} in Grid.{meth.name}", None,
+               f"`self.{key[1]}` may be read before any code defines it, which could not be established: {why_}",
+               file=U.GRID, func=f"Grid.{meth.name}")
     reads = [(meth, node) for meth, node in reads if node.attr not in declared]
     seen = set()
     for meth, node in reads:
@@ -1242,6 +1252,7 @@ def derived_state(chk):
                 any(isinstance(n, ast.Assign) and any(src(t) == "self._layout" for t in n.targets) and src(n.value) == f"self.{a}"
                     for n in ast.walk(cls)):
             del derived[a]
+    undecided_missing = list(getattr(missing, "undecided", ()))
     missing = [(m_, n_, a) for m_, n_, a in missing if a in derived]
 
     # `x = <new layout>; self.a = f(x); self._layout = x`: the attribute was already computed from the object that becomes the layout
@@ -1292,6 +1303,13 @@ def derived_state(chk):
         chk.ob("G4-layout-derived-state", node, f"self.{a} refreshed in Grid.{meth.name}", False,
                f"Grid.{meth.name} rebinds self._layout but leaves `self.{a}` (filled from self._layout in Grid.{dm}, line {dn.lineno}) "
                "as it was: afterwards the accessors answer for the previous layout", file=U.GRID, func=f"Grid.{meth.name}")
+    # possible omissions the lint could not establish: the same exemptions apply; what is left is undecided
+    for m_, n_, a, why_ in undecided_missing:
+        if a not in derived or from_new_layout(m_, a) or refreshed_by_call(m_, n_, a) or (setters and assigns(setters, a)):
+            continue
+        chk.ob("G4-layout-derived-state", n_, f"self.{a} refreshed in Grid.{m_.name}", None,
+               f"Grid.{m_.name} rebinds self._layout and may leave `self.{a}` as it was, which could not be established: {why_}",
+               file=U.GRID, func=f"Grid.{m_.name}")
     meths = {m.name: m for m in cls.body if isinstance(m, ast.FunctionDef)}
     direct = {nm for nm, m in meths.items() if any(isinstance(n, ast.Assign) and any(src(t) == "self._layout" for t in n.targets)
                                                    for n in ast.walk(m))}
